@@ -11,7 +11,10 @@ def run(chk, replay=None):
     # underflow only panics with overflow checks; in release it wraps into a huge value that the
     # contracts reject as well)
     evs_all = []
-    for profile in ("release", "relcheck"):
+    profiles = ("release", "relcheck")
+    if replay:
+        profiles = (replay["event"].get("profile", "release"),)
+    for profile in profiles:
         trace = os.path.join(w, "trace_%s.ndjson" % profile)
         core.run_driver(["c20", "--seed", chk.seed, "--profile", profile], trace, profile=profile)
         if replay:
@@ -29,8 +32,6 @@ def run(chk, replay=None):
             chk.notes.append({"profile": profile, "note": k, "bits_from": lo, "bits_to": hi, "events": c})
         evs = core.read_ndjson(trace)
         evs_all += evs
-        if replay:
-            break
 
     def key(e):
         if e["op"] == "params":
